@@ -51,6 +51,7 @@ Definition classQ (inf : Q) (l u : Q) : rtype :=
   if qleb l (- inf) then (if qleb inf u then TFree else TUpper)
   else if qleb inf u then TLower
   else if Qeq_bool l u then TFixed else TBoxed.
+(* _rangeTypeReal; since the fix of changeRow/Col/Range/BoundsReal no call of the two interfaces uses it any more *)
 Definition classR (l u : dy) : rtype := classQ (d2q dinf) (d2q l) (d2q u).
 
 (* ====================================================================================================== lists *)
@@ -238,15 +239,10 @@ Definition rlp := lp dy.
 Definition qlp := lp Q.
 Definition rapply : prim dy -> rlp -> rlp := papply dzero dneg dnz dinf.
 Definition qapply : prim Q -> qlp -> qlp := papply qzero Qopp qnz (d2q dinf).
-(* the same calls where the vectors reach doAddRow(s) / doAddCol(s) with their zero entries still in place, so that
-   every index counts for the implicit creation of columns / rows:
-   - the rational LP in addRowRational / addColRational(const mpq_t* ...): the loop runs over the caller's arrays;
-   - the real LP in addRowsRational / addColsRational(const LPRowSetRational& / LPColSetRational&): the converted set
-     keeps entries whose double image is 0.0;
-   - the real LP in addRowRational / addColRational(const mpq_t pointers): doAddRow / doAddCol(value, vector, value) create
-     the missing columns / rows from the indices of the argument vector, which keeps entries whose double image is 0.0 *)
+(* the same calls where every index of the argument vector counts for the implicit creation of columns / rows: the real
+   LP in addRowRational / addColRational(const mpq_t pointers), where doAddRow / doAddCol(value, vector, value) create the
+   missing columns / rows from the indices of the converted vector, which keeps entries whose double image is 0.0 *)
 Definition rapply_all : prim dy -> rlp -> rlp := papply dzero dneg (fun _ => true) dinf.
-Definition qapply_all : prim Q -> qlp -> qlp := papply qzero Qopp (fun _ => true) (d2q dinf).
 Definition applys {T} (ap : prim T -> lp T -> lp T) (ps : list (prim T)) (l : lp T) : lp T :=
   fold_left (fun l p => ap p l) ps l.
 Definition rapplys := applys rapply.
@@ -336,10 +332,10 @@ Inductive tyupd :=
 | TNone
 | TComplete                                      (* _completeRangeTypesRational *)
 | TRowSet (i : nat) (t : rtype) | TColSet (j : nat) (t : rtype)     (* tys[i] = t; then complete *)
+| TRowAtC (i : nat) | TColAtC (j : nat)                             (* tys[i] = classify(rational LP, i); then complete *)
 | TRowAt (i : nat) | TColAt (j : nat)                               (* tys[i] = classify(rational LP, i) *)
 | TRowsPrefix (k : nat)                                            (* for i < k: tys[i] = classify(rational LP, i) *)
 | TRowsAll | TColsAll                                               (* for i < dim *)
-| TRowsSet (ts : list rtype) | TColsSet (ts : list rtype)           (* for i < dim: tys[i] = ts[i] *)
 | TRemRow (i : nat) | TRemCol (j : nat) | TRemRows (mask : list bool) | TRemCols (mask : list bool)
 | TClear.
 
@@ -352,13 +348,13 @@ Definition ty_apply (inf : Q) (q : qlp) (u : tyupd) (tys : list rtype * list rty
   | TComplete => (complete fr r, complete fc c)
   | TRowSet i t => (complete fr (setn i t r), complete fc c)
   | TColSet j t => (complete fr r, complete fc (setn j t c))
+  | TRowAtC i => (complete fr (setn i (nth i fr TFree) r), complete fc c)
+  | TColAtC j => (complete fr r, complete fc (setn j (nth j fc TFree) c))
   | TRowAt i => (setn i (nth i fr TFree) r, c)
   | TColAt j => (r, setn j (nth j fc TFree) c)
   | TRowsPrefix k => (overwrite (firstn k fr) r, c)
   | TRowsAll => (overwrite fr r, c)
   | TColsAll => (r, overwrite fc c)
-  | TRowsSet ts => (overwrite (firstn (nrows q) ts) r, c)
-  | TColsSet ts => (r, overwrite (firstn (ncols q) ts) c)
   | TRemRow i => (ty_remove i (nrows q) r, c)
   | TRemCol j => (r, ty_remove j (ncols q) c)
   | TRemRows mask => (ty_compact mask r, c)
@@ -394,16 +390,12 @@ Section Model.
   Definition rtyupd (m n : nat) (o : rop) : tyupd :=
     match o with
     | RAddRow _ | RAddRows _ | RAddCol _ | RAddCols _ => TComplete
-    | RChgRow i (a, b, _) => TRowSet i (classR a b)              (* _rangeTypeReal *)
-    | RChgCol j (_, a, b, _) => TColSet j (classR a b)           (* _rangeTypeReal *)
-    | RLhs i _ | RRhs i _ => TRowAt i
-    | RLhsV _ | RRhsV _ => TRowsAll
-    | RRange i a b => TRowSet i (classR a b)                     (* _rangeTypeReal; complete is the identity here *)
-    | RRangeV a b => TRowsSet (map2 classR a b)                  (* _rangeTypeReal *)
-    | RLo j _ | RUp j _ => TColAt j
-    | RLoV _ | RUpV _ => TColsAll
-    | RBnd j a b => TColSet j (classR a b)                       (* _rangeTypeReal *)
-    | RBndV a b => TColsSet (map2 classR a b)                    (* _rangeTypeReal *)
+    | RChgRow i _ => TRowAtC i                                   (* _rangeTypeRational(rational lhs(i), rhs(i)); complete *)
+    | RChgCol j _ => TColAtC j
+    | RLhs i _ | RRhs i _ | RRange i _ _ => TRowAt i
+    | RLhsV _ | RRhsV _ | RRangeV _ _ => TRowsAll
+    | RLo j _ | RUp j _ | RBnd j _ _ => TColAt j
+    | RLoV _ | RUpV _ | RBndV _ _ => TColsAll
     | RObj _ _ | RObjV _ | RElem _ _ _ => TNone
     | RRemRow i => TRemRow i | RRemCol j => TRemCol j
     | RRemRows perm => TRemRows (mask_of_perm perm) | RRemCols perm => TRemCols (mask_of_perm perm)
@@ -411,12 +403,10 @@ Section Model.
     | RRemRowRange a b => TRemRows (range_to_mask m a b) | RRemColRange a b => TRemCols (range_to_mask n a b)
     | RClear => TClear
     end.
-  (* RRange / RBnd do not call _completeRangeTypesRational; TRowSet's completion appends nothing because no row or
-     column is created by these calls. *)
 
   (* ---------- the rational interface: the calls on the rational LP ... *)
   Definition elem_q (e : dy) (g : bool) (x : Q) : Q :=
-    if g then (if dnz (rnd RGetD x) then x else qzero)           (* mpq_get_d of the value is not 0 *)
+    if g then (if qnz x then x else qzero)                       (* mpq_sgn of the value is not 0 *)
     else (if keep_q e x then x else qzero).                      (* isNotZero(val, epsilon) *)
   Definition qprims (e : dy) (pm : bool) (m n : nat) (q : qlp) (o : qop) : list (prim Q) :=
     match o with
@@ -471,12 +461,13 @@ Section Model.
     (sgn dneg pm (rnd RConv (sgn Qopp qmax o)), rnd RConv a, rnd RConv b, svec_map (rnd RConv) v).
   Definition qrprims (e : dy) (m n : nat) (q' : qlp) (pm : bool) (o : qop) : list (prim dy) :=
     match o with
-    | QAddRow _ r => [PAddRow (rs_rnd r)]
-    | QAddRows true rs => map (fun r => PAddRow (rs_rnd r)) rs
-    | QAddRows false rs => map (fun r => PAddRow (rs_rnd (rs_clean r))) rs
+    | QAddRow false r => [PAddRow (rs_rnd r)]
+    (* the stored rational row (exact zeros of the arrays are not stored), converted entry by entry *)
+    | QAddRow true r => [PAddRow (rs_rnd (rs_clean r))]
+    | QAddRows _ rs => map (fun r => PAddRow (rs_rnd r)) rs
     | QAddCol false c => [PAddCol (cs_rnd c)]
-    | QAddCols false cs => map (fun c => PAddCol (cs_rnd (cs_clean c))) cs
-    | QAddCol true c => [PAddCol (cs_rnd_g (lmax q') pm c)]
+    | QAddCols false cs => map (fun c => PAddCol (cs_rnd c)) cs
+    | QAddCol true c => [PAddCol (cs_rnd_g (lmax q') pm (cs_clean c))]
     | QAddCols true cs => map (fun c => PAddCol (cs_rnd_g (lmax q') pm c)) cs
     | QChgRow i r => [PChgRow i (rs_rnd r)] | QChgCol j c => [PChgCol j (cs_rnd c)]
     | QLhs i x => [PLhs i (rnd RConv x)] | QLhsV xs => [PLhsV (map (rnd RConv) xs)]
@@ -507,11 +498,11 @@ Section Model.
     | None => s
     end.
 
-  Definition qap_of (o : qop) : prim Q -> qlp -> qlp :=
-    match o with QAddRow true _ | QAddCol true _ => qapply_all | _ => qapply end.
+  (* every entry point stores the rational vectors without exact zeros and creates missing columns / rows for the
+     stored entries only *)
+  Definition qap_of (o : qop) : prim Q -> qlp -> qlp := qapply.
   Definition rap_of (o : qop) : prim dy -> rlp -> rlp :=
     match o with
-    | QAddRows false _ | QAddCols false _ => rapply_all
     | QAddRow true _ | QAddCol true _ => rapply_all      (* doAddRow / doAddCol(value, vector, value): the argument's indices *)
     | _ => rapply
     end.
@@ -564,7 +555,13 @@ Section Model.
         | Manual =>
           (* _ensureRationalLP, then the sense of the real LP is copied *)
           let q := match ql s with Some q => q | None => empty_lp qzero end in
-          mkSt (rl s) (Some (qapply (PSense (lmax (rl s))) q)) (rty s) (cty s) (mode s) (pinf s) (pmax s) (eps s)
+          let q' := qapply (PSense (lmax (rl s))) q in
+          (* coming from ONLYREAL the type arrays are recomputed (_recomputeRangeTypesRational) *)
+          let t := match mode s with
+                   | OnlyReal => (class_rows inf q', class_cols inf q')
+                   | _ => (rty s, cty s)
+                   end in
+          mkSt (rl s) (Some q') (fst t) (snd t) (mode s) (pinf s) (pmax s) (eps s)
         end in
       mkSt (rl s') (ql s') (rty s') (cty s') md (pinf s') (pmax s') (eps s')
     | SetInfty v =>
@@ -604,12 +601,10 @@ Section Model.
   Definition rprims_ok := prims_ok rapply.
   Definition qprims_ok := prims_ok qapply.
 
-  (* the GMP array entry points addRowsRational / addColsRational cannot create columns / rows implicitly *)
+  (* the GMP array entry points addRowsRational / addColsRational cannot create columns / rows implicitly (exact zeros
+     of the arrays are not stored and do not count) *)
   Definition no_growth (g : bool) (bound : nat) (v : svec Q) : bool :=
-    negb g || forallb (fun p => fst p <? bound) v.
-
-  Definition is_auto (md : smode) : bool := match md with Auto => true | _ => false end.
-  Definition no_uflow (v : svec Q) : bool := forallb (fun p => negb (qnz (snd p)) || dnz (rnd RConv (snd p))) v.
+    negb g || forallb (fun p => negb (qnz (snd p)) || (fst p <? bound)) v.
 
   Definition valid_op (s : state) (o : op) : bool :=
     match o with
@@ -637,19 +632,8 @@ Section Model.
         let ps := qprims (eps s) (pmax s) m n q qo in
         prims_ok (qap_of qo) ps q &&
         match qo with
-        (* addRow(s)Rational / addCol(s)Rational(const mpq_t pointers): an explicit zero among the values is stored in the
-           row (column) vector but not in the column (row) file; the two files of the rational LP then disagree, a
-           later changeElement duplicates the entry.  Reported as a defect; such calls are outside the modelled domain *)
-        | QAddRow true (_, _, v) => forallb (fun p => qnz (snd p)) v
-        | QAddCol true (_, _, _, v) => forallb (fun p => qnz (snd p)) v
-        (* addRowsRational / addColsRational(const LPRowSetRational& / LPColSetRational&) in SYNCMODE_AUTO: a nonzero
-           coefficient whose double image is 0.0 stays in the converted set as an explicit zero; doAddRows / doAddCols
-           count it when they extend the column / row file but never write it: the real LP is left with an
-           uninitialised entry.  Reported as a defect; such calls are outside the modelled domain *)
-        | QAddRows g rs => forallb (fun r => no_growth g n (snd r) && (g || negb (is_auto md) || no_uflow (snd r))
-                                             && (negb g || forallb (fun p => qnz (snd p)) (snd r))) rs
-        | QAddCols g cs => forallb (fun c => no_growth g m (snd c) && (g || negb (is_auto md) || no_uflow (snd c))
-                                             && (negb g || forallb (fun p => qnz (snd p)) (snd c))) cs
+        | QAddRows g rs => forallb (fun r => no_growth g n (snd r)) rs
+        | QAddCols g cs => forallb (fun c => no_growth g m (snd c)) cs
         | GRhsV xs => length xs <=? m
         | QRemRowsIdx idx => forallb (fun i => i <? m) idx
         | QRemColsIdx idx => forallb (fun j => j <? n) idx
